@@ -1,0 +1,75 @@
+//go:build verif
+
+// Verification hook for property C12 (transformation cache). Add-only file, compiled only with
+// the build tag "verif": exposes the unexported cache types and Rule.transformArg to the
+// correspondence harness in /verif/harness/c12. It contains no logic of its own besides the
+// two-way dispatch of doEvaluate (MultiMatch -> transformMultiMatchArg, else transformArg).
+package corazawaf
+
+import (
+	"unsafe"
+
+	"github.com/corazawaf/coraza/v3/types"
+)
+
+// VerifC12Cache is the per-transaction transformation cache.
+type VerifC12Cache = map[transformationKey]transformationValue
+
+// VerifC12Entry is one cache entry in exported form.
+type VerifC12Entry struct {
+	KeyPtr   uintptr
+	Index    int
+	Variable int
+	ChainID  int
+	Input    string
+	Output   string
+	Errs     []error
+}
+
+func VerifC12NewCache() VerifC12Cache { return VerifC12Cache{} }
+
+// VerifC12Transform is what doEvaluate does with one argument of one rule.
+func (r *Rule) VerifC12Transform(arg types.MatchData, idx int, cache VerifC12Cache) ([]string, []error) {
+	if r.MultiMatch {
+		return r.transformMultiMatchArg(arg)
+	}
+	v, errs := r.transformArg(arg, idx, cache)
+	return []string{v}, errs
+}
+
+func (r *Rule) VerifC12PrefixIDs() []int {
+	return append([]int(nil), r.transformationPrefixIDs...)
+}
+
+func (r *Rule) VerifC12NumTransformations() int { return len(r.transformations) }
+
+func VerifC12Dump(cache VerifC12Cache) []VerifC12Entry {
+	res := make([]VerifC12Entry, 0, len(cache))
+	for k, v := range cache {
+		res = append(res, VerifC12Entry{
+			KeyPtr:   uintptr(unsafe.Pointer(k.argKey)),
+			Index:    k.argIndex,
+			Variable: int(k.argVariable),
+			ChainID:  k.transformationsID,
+			Input:    v.input,
+			Output:   v.arg,
+			Errs:     v.errs,
+		})
+	}
+	return res
+}
+
+func (tx *Transaction) VerifC12Cache() VerifC12Cache { return tx.transformationCache }
+
+// VerifC12InternName returns the name under which a chain id is interned ("" for unknown ids).
+func VerifC12InternName(id int) string {
+	transformationIDsLock.Lock()
+	defer transformationIDsLock.Unlock()
+	if id < 0 || id >= len(transformationIDToName) {
+		return ""
+	}
+	return transformationIDToName[id]
+}
+
+// VerifC12KeyPtr is the pointer identity transformArg uses for a key string.
+func VerifC12KeyPtr(key string) uintptr { return uintptr(unsafe.Pointer(unsafe.StringData(key))) }
